@@ -223,10 +223,16 @@ macro_rules! drive {
 /// Unconstrained joins deliver one item per index of the whole index space
 /// (2^24): all of them are counted, only the `$keep` ones are recorded.
 macro_rules! drive_u {
-    ($run:expr, $count:expr, $tuple:expr, |$pat:pat_param| $keep:expr, $body:expr) => {{
+    ($run:expr, $world:expr, $count:expr, $tuple:expr, |$pat:pat_param| $keep:expr, $body:expr) => {{
         let run: &Run = $run;
         let mut n: u64 = 0;
+        let mut gets: Vec<Value> = vec![];
         let items: Vec<Value> = match run.variant {
+            "lend_get" => {
+                // lookups by entity / by index through the lending join (no walk over the index space)
+                drive!(@get run, $world, gets, $tuple, |$pat| $body);
+                vec![]
+            }
             "join" => {
                 let mut v = vec![];
                 for $pat in ($tuple).join() {
@@ -289,8 +295,8 @@ macro_rules! drive_u {
             }
             _ => vec![json!("unsupported")],
         };
-        *$count = Some(n);
-        (items, vec![])
+        *$count = if run.variant == "lend_get" { None } else { Some(n) };
+        (items, gets)
     }};
 }
 
@@ -679,14 +685,14 @@ fn exec_shape(s: &mut Setup, shape: &str, run: &Run) -> (Vec<Value>, Vec<Value>)
         "u_n" => {
             let a = world.read_storage::<V0>();
             let mut c = None;
-            let r = drive_u!(run, &mut c, (!&a,), |(_u,)| false, [json!([UNIT])]);
+            let r = drive_u!(run, world, &mut c, (!&a,), |(_u,)| false, [json!([UNIT])]);
             run.count.set(c);
             r
         }
         "u_m" => {
             let a = world.read_storage::<V0>();
             let mut c = None;
-            let r = drive_u!(run, &mut c, ((&a).maybe(),), |(x,)| x.is_some(), [ro(x)]);
+            let r = drive_u!(run, world, &mut c, ((&a).maybe(),), |(x,)| x.is_some(), [ro(x)]);
             run.count.set(c);
             r
         }
@@ -694,14 +700,14 @@ fn exec_shape(s: &mut Setup, shape: &str, run: &Run) -> (Vec<Value>, Vec<Value>)
             let a = world.read_storage::<V0>();
             let b = world.read_storage::<D0>();
             let mut c = None;
-            let r = drive_u!(run, &mut c, (!&a, (&b).maybe()), |(_u, y)| y.is_some(), [json!([UNIT]), ro(y)]);
+            let r = drive_u!(run, world, &mut c, (!&a, (&b).maybe()), |(_u, y)| y.is_some(), [json!([UNIT]), ro(y)]);
             run.count.set(c);
             r
         }
         "u_mw" => {
             let mut a = world.write_storage::<V0>();
             let mut c = None;
-            let r = drive_u!(run, &mut c, ((&mut a).maybe(),), |(x,)| x.is_some(), [wo(x)]);
+            let r = drive_u!(run, world, &mut c, ((&mut a).maybe(),), |(x,)| x.is_some(), [wo(x)]);
             run.count.set(c);
             r
         }
@@ -710,7 +716,7 @@ fn exec_shape(s: &mut Setup, shape: &str, run: &Run) -> (Vec<Value>, Vec<Value>)
             let b = world.read_storage::<D0>();
             let watch = &run.watch;
             let mut c = None;
-            let r = drive_u!(run, &mut c, (BitSetNot(b1), (&b).maybe()), |(i, y)| y.is_some() || watch.binary_search(&i).is_ok(), [json!([i]), ro(y)]);
+            let r = drive_u!(run, world, &mut c, (BitSetNot(b1), (&b).maybe()), |(i, y)| y.is_some() || watch.binary_search(&i).is_ok(), [json!([i]), ro(y)]);
             run.count.set(c);
             r
         }
